@@ -14,6 +14,7 @@ import DracoProofs.SymbolBit
 import DracoProofs.EncBuf
 import Generated.Constants
 import Generated.FastDivTab
+import DracoProofs.GeneratedCore
 /-
   C17 — "Every primitive writer/reader pair of the bitstream layer is an exact inverse for all
   values: variable-length integers of every width and sign, byte-aligned scalars, bit sequences
@@ -312,5 +313,23 @@ theorem ans_constants_match_source :
     Generated.ansLBase = (ansL : Int) ∧ Generated.ansIoBase = (ansIO : Int) ∧
     Generated.ansP8Precision = (ansP8 : Int) ∧ Generated.ansDivideByMultiply = 1 := by
   decide
+
+/-! ## the source functions *are* the model functions
+
+  `Generated.*` (lean/Generated/Funcs.lean) is translated mechanically from clang's typed AST of /repo's
+  working tree on every run (tools/vlib/xlate.py). -/
+open Generated in
+/-- `ConvertSignedIntToSymbol<int32_t>` is `toSymbol 32` (every `int32_t`) -/
+theorem source_toSymbol_is_model (x : Int) (hx : I32 x) :
+    ConvertSignedIntToSymbol x = (toSymbol 32 x : Int) := ConvertSignedIntToSymbol_eq_model x hx
+example : Generated.ConvertSignedIntToSymbol (-3) = 5 := by
+  rw [source_toSymbol_is_model _ (by decide)]; decide
+
+open Generated in
+/-- `ConvertSymbolToSignedInt<uint32_t>` is `ofSymbol` (every `uint32_t`) -/
+theorem source_ofSymbol_is_model (v : Int) (hv : U32 v) :
+    ConvertSymbolToSignedInt v = ofSymbol v.toNat := ConvertSymbolToSignedInt_eq_model v hv
+example : Generated.ConvertSymbolToSignedInt 5 = -3 := by
+  rw [source_ofSymbol_is_model _ (by decide)]; decide
 
 end Draco.C17
